@@ -273,9 +273,10 @@ for m in (1, 8, 16):
 for m in (1, 16):
     _f7("f7_tw_same_inf_m%d" % m, ["C11"] if m == 1 else [], ["C11", "C02"], STUB_CUT, F7TW,
         {"chunk": "256-byte chunk, symbolic start/finger", "value": "Result<u64, E(u32, D)>", "allocator": "A-cut"}, "Bump<%d>, alloc_try_with" % m, cost=120)
-for nm, m in (("f7_tw_newchunk_try_m8", 8), ("f7_tw_newchunk_inf_m16", 16)):
+for nm, m in (("f7_tw_newchunk_try_m8", 8), ("f7_tw_newchunk_inf_m16", 16), ("f7_tw_newchunk_inf_m16_first", 16)):
     _f7(nm, ["C11", "C03", "C08"] if m == 16 else (["C11"] if m == 8 else []), ["C11", "C10", "C03", "C08"], STUB_POOL, F7TW + ["Bump::alloc_layout_slow", "Bump::new_chunk"],
-        {"pre_state": "one 448-byte chunk with 16 bytes free (concrete)", "value": "Result<[u8;200], E>", "allocator": "A-pool, nothing refused"}, "Bump<%d>" % m, cost=60)
+        {"pre_state": "one 448-byte chunk with 16 bytes free (concrete)", "value": "Result<[u8;200], E>", "allocator": "A-pool, nothing refused"}, "Bump<%d>" % m, cost=60, allow=[r"^out of memory$"],
+        exempt=[] if nm.endswith("_first") else [r"failed initialiser after a new chunk"])
 for nm, m, q in (("f7_tw_newchunk_nested_inf_m16", 16, ["C11", "C01"]), ("f7_tw_newchunk_nested_try_m4", 4, []), ("f7_try_fill_newchunk_m4", 4, []), ("f7_try_fill_newchunk_m16", 16, ["C10", "C11"])):
     _f7(nm, q, ["C01", "C10", "C11", "C02"], STUB_POOL, F7TW + ["Bump::alloc_slice_try_fill_with", "Bump::alloc_layout_slow", "Bump::new_chunk"],
         {"pre_state": "one 448-byte chunk, 16 (0) bytes free (concrete)", "scenario": nm, "allocator": "A-pool, nothing refused"}, "Bump<%d>" % m, cost=60)
